@@ -3,7 +3,8 @@
     scalar its real 32 bytes).  Definitions only. *)
 From Coq Require Import ZArith NArith List String Bool.
 From CB Require Import Crypto.Alg Crypto.Transcript Crypto.SigmaGeneric Crypto.SigmaCodec
-  Crypto.Sigma_dlog Crypto.Sigma_com_eq Crypto.Sigma_com_enc_eq Crypto.Sigma_com_mult Crypto.Sigma_aggregate_dlog.
+  Crypto.Sigma_dlog Crypto.Sigma_com_eq Crypto.Sigma_com_enc_eq Crypto.Sigma_com_mult Crypto.Sigma_aggregate_dlog
+  Crypto.Sigma_enc_trans Crypto.Sigma_com_lin Crypto.Sigma_com_eq_diff.
 Import ListNotations.
 Local Open Scope Z_scope.
 Local Open Scope bool_scope.
@@ -123,3 +124,51 @@ Definition X_replicate_dlog : xproto := {|
   x_wit := fun w => w; x_resp := fun z => z;
   x_recover := fun s w c z => map3 (fun si wi zi => x_recover X_dlog si wi c zi) s w z;
   x_relb := fun s w => Nat.eqb (List.length s) (List.length w) && forallb (fun b => b) (map2 (x_relb X_dlog) s w) |}.
+
+(** ComLin: pubs = us(n) ++ cmms(n) ++ [cmm; g; h]; wit = xs(n) ++ rs(n) ++ [r]; resp = zs(n) ++ ss(n) ++ [s] *)
+Definition half_n (extra : nat) (l : list Z) : nat := Nat.div (List.length l - extra) 2.
+Definition hideZ (g h x r : Z) : Z := Gadd ZrG (smul ZrG x g) (smul ZrG r h).
+Definition list_geq (a b : list Z) : bool := Nat.eqb (List.length a) (List.length b) && forallb (fun b => b) (map2 geq a b).
+Definition X_com_lin : xproto := {|
+  xp := com_lin_proto ZrCodec;
+  x_stmt := fun p => let n := half_n 3 p in
+    @mkComLin ZrF ZrG (firstn n p) (firstn n (skipn n p)) (nz p (2 * n)) (nz p (2 * n + 1)) (nz p (2 * n + 2));
+  x_wit := fun w => let n := half_n 1 w in (firstn n w, firstn n (skipn n w), nz w (2 * n));
+  x_resp := fun z => let n := half_n 1 z in (firstn n z, firstn n (skipn n z), nz z (2 * n));
+  x_recover := fun s w c z => com_lin_recover s w c z;
+  x_relb := fun s w => let '(xs, rs, rr) := w in
+     Nat.eqb (List.length xs) (List.length (cl_us s)) && Nat.eqb (List.length rs) (List.length (cl_us s))
+     && list_geq (cl_cmms s) (map2 (hideZ (cl_g s) (cl_h s)) xs rs)
+     && geq (cl_cmm s) (hideZ (cl_g s) (cl_h s) (Fdot (K:=ZrF) (cl_us s) xs) rr) |}.
+
+(** ComEqDiffGroups instantiated with the same group twice (as the harness does) *)
+Definition X_com_eq_diff : xproto := {|
+  xp := ced_proto ZrCodec ZrCodec;
+  x_stmt := fun p => @mkCed ZrF ZrG ZrG (nz p 0) (nz p 1) (nz p 2) (nz p 3) (nz p 4) (nz p 5);
+  x_wit := fun w => (nz w 0, nz w 1, nz w 2); x_resp := fun z => (nz z 0, nz z 1, nz z 2);
+  x_recover := fun s w c z => ced_recover s w c z;
+  x_relb := fun s w => let '(x, r1, r2) := w in
+     geq (cd_c1 s) (hideZ (cd_g1 s) (cd_h1 s) x r1) && geq (cd_c2 s) (hideZ (cd_g2 s) (cd_h2 s) x r2) |}.
+
+(** EncTrans with n1 = n2 = n chunks: pubs = [dlog.public; dlog.coeff; elg.public; elg.c0; elg.c1] ++ 5 per chunk;
+    wit = sk :: (r, a) per chunk; resp = common :: (s, t) per chunk *)
+Fixpoint chunk5 (l : list Z) : list (list Z) :=
+  match l with a :: b :: c :: d :: e :: l' => [a; b; c; d; e] :: chunk5 l' | _ => [] end.
+Fixpoint pairs (l : list Z) : list (Z * Z) :=
+  match l with a :: b :: l' => (a, b) :: pairs l' | _ => [] end.
+Definition halves {A} (l : list A) : list A * list A := let n := Nat.div (List.length l) 2 in (firstn n l, skipn n l).
+Definition et_triple (l : list Z) : Z * list (Z * Z) * list (Z * Z) :=
+  let '(a, b) := halves (pairs (tl l)) in (nz l 0, a, b).
+Definition X_enc_trans : xproto := {|
+  xp := enc_trans_proto ZrCodec;
+  x_stmt := fun p => let '(e1, e2) := halves (map (x_stmt X_com_eq) (chunk5 (skipn 5 p))) in
+    @mkEncTrans ZrF ZrG (@mkDlog ZrF ZrG (nz p 0) (nz p 1)) (@mkElgDec ZrF ZrG (nz p 2) (nz p 3) (nz p 4)) e1 e2;
+  x_wit := et_triple; x_resp := et_triple;
+  x_recover := fun s w c z => enc_trans_recover s w c z;
+  x_relb := fun s w => let '(sk, w1, w2) := w in
+     geq (dl_public (et_dlog s)) (smul ZrG sk (dl_coeff (et_dlog s)))
+     && Nat.eqb (List.length w1) (List.length (et_e1 s)) && Nat.eqb (List.length w2) (List.length (et_e2 s))
+     && forallb (fun b => b) (map2 (x_relb X_com_eq) (et_e1 s) w1)
+     && forallb (fun b => b) (map2 (x_relb X_com_eq) (et_e2 s) w2)
+     && geq (ed_public (et_elg s))
+            (hideZ (ed_c0 (et_elg s)) (ed_c1 (et_elg s)) sk (fadd (lin2 (K:=ZrF) (map fst w1)) (lin2 (K:=ZrF) (map fst w2)))) |}.
